@@ -4,6 +4,7 @@
 -/
 import GasolVerif.Models.Encoding
 import GasolVerif.Models.EncodingOrder
+import GasolVerif.Models.EncodingSoft
 import GasolVerif.Models.FormulaIO
 namespace GasolVerif.Enc
 open GasolVerif.Formula
@@ -85,7 +86,7 @@ def parsePairs (s : String) : Option (List OrderPair) :=
 /-- ENC: `ok <instOk> <all raw trees well sorted> <premises of the injectivity theorem> <premises of the order theorems>`,
     then the built core constraints, `#inj` and the injectivity constraints, `#order` and the order constraints
     (direct memory encoding only; with uninterpreted theta values also their `distinct` constraint); tab separated -/
-def handleEnc (bs b0 lim mode term instrs src tgt terms memenc pairs ls ledges : String) : String :=
+def handleEnc (bs b0 lim mode term instrs src tgt terms memenc pairs ls ledges wts : String) : String :=
   match parseInst bs b0 lim (if mode == "uf" then "1" else "0") term instrs src tgt terms with
   | none => "error:parse"
   | some I =>
@@ -101,11 +102,20 @@ def handleEnc (bs b0 lim mode term instrs src tgt terms memenc pairs ls ledges :
       let ordRaws := (if memenc == "direct" then orderRaw I ps else lRaw I lsN le) ++ (if I.thetaUF && I.instrs.length > 1 then [thetaDistinctRaw I] else [])
       let ordOk := orderOk I && thetasOk I
       let ws := raws.all F.ws && injRaws.all F.ws && ordRaws.all F.ws
-      match buildAll injRaws, buildAll ordRaws with
-      | some injBuilt, some ordBuilt =>
-        s!"ok {if instOk I then 1 else 0} {if ws then 1 else 0} {if injOk then 1 else 0} {if ordOk then 1 else 0}" ++ "\t" ++
-          "\t".intercalate (built.map showF ++ ["#inj"] ++ injBuilt.map showF ++ ["#order"] ++ ordBuilt.map showF)
-      | _, _ => "error:constructor-raises"
+      -- soft constraints grouped by weight: `theta:weight` in the order of the encoder's weight table; `-` = not grouped mode
+      let wl : List (Nat × Nat) := (splitNE' wts ",").filterMap fun p => match p.splitOn ":" with
+        | [a, b] => match a.toNat?, b.toNat? with
+          | some x, some y => some (x, y)
+          | _, _ => none
+        | _ => none
+      let softs := if wts == "-" then [] else softGrouped I wl
+      let softOkB := wts != "-" && softOk I wl && orderOk I && thetasOk I
+      match buildAll injRaws, buildAll ordRaws, buildAll (softs.map (·.1)) with
+      | some injBuilt, some ordBuilt, some softBuilt =>
+        s!"ok {if instOk I then 1 else 0} {if ws && (softs.map (·.1)).all F.ws then 1 else 0} {if injOk then 1 else 0} {if ordOk then 1 else 0} {if softOkB then 1 else 0}" ++ "\t" ++
+          "\t".intercalate (built.map showF ++ ["#inj"] ++ injBuilt.map showF ++ ["#order"] ++ ordBuilt.map showF ++ ["#soft"] ++
+            (softBuilt.zip (softs.map (·.2))).map fun (f, w) => s!"{w}@" ++ showF f)
+      | _, _, _ => "error:constructor-raises"
     | none, _, _ => "error:stack-variable-without-term"
     | _, none, _ => "error:constructor-raises"
     | _, _, none => "error:parse-pairs"
